@@ -283,13 +283,3 @@ Definition SpecH (c : case) : Prop :=
 Theorem spec_b_iff c : spec_b c = true <-> SpecH c.
 Proof. unfold spec_b, spec_nofresh_b, SpecH. rewrite andb_true_iff, steps_ok_iff, fresh_ok_iff. tauto. Qed.
 
-(* the F20 trigger predicate: everything holds except fresh_survives, and that holds again when the
-   search stops at an Untrash of the same hash *)
-Theorem known_F20_iff c : known_F20_b c = true <->
-  StepsOk (c_cfg c) (c_ro c) (c_uuid c) (c_init c) (c_steps c) /\ ~ FreshOk (c_cfg c) false (c_steps c) /\ FreshOk (c_cfg c) true (c_steps c).
-Proof.
-  unfold known_F20_b, spec_nofresh_b. rewrite !andb_true_iff, negb_true_iff, steps_ok_iff, fresh_ok_iff.
-  assert (E : fresh_ok (c_cfg c) false (c_steps c) = false <-> ~ FreshOk (c_cfg c) false (c_steps c))
-    by (rewrite <- fresh_ok_iff; destruct (fresh_ok (c_cfg c) false (c_steps c)); split; congruence).
-  rewrite E. tauto.
-Qed.
